@@ -85,7 +85,7 @@ def run(pid, tier, replay=None):
         ck.part("random_histories", histories=nh, steps_each=no, events_accepted=rn)
     ck.part("coverage_by_operation", **{OPS[i]: n for i, n in enumerate(opc) if 0 < i < len(OPS)})
     missing = [OPS[i] for i in range(1, len(OPS)) if opc[i] == 0]
-    if missing:
+    if missing and not ck.violations:      # (a crashed replay has its own violation; its counters are empty)
         raise Broken("vacuity: operations never exercised: %s" % missing)
     ck.cov["rule"] = ("every transition of the TLC state graphs of Str: short strings over the byte classes {a, space, NUL, >=0x80} with all operations and code points of every UTF-8 length; "
                       "medium strings over 2 bytes and long single-byte strings crossing the 8/16(/24) capacity boundaries with one- and two-pass formatted appends; "
